@@ -737,6 +737,7 @@ def rule_r15(ctx):
                  "because nni_lmq_put found the buffer full, every function that resizes that buffer looks at the wait list "
                  "(nni_list_first) before it releases the lock -- the send path puts a new message straight into a buffer with "
                  "room, so with waiters left behind a message submitted later is delivered before them", floor=3)
+    r.follows_values = True      # the waiter is followed through a local: the temporaries-propagated view hides the repeated test
     prog = ctx.prog
     pairs = overflow_pairs(prog)
     if len(pairs) < 3:
@@ -780,6 +781,22 @@ def rule_r15(ctx):
                              "into the buffer ahead of them" % (f.name, q, c.line, f.line_of(*leak[0]), w, parker.name))
                 else:
                     r.ob(f, "%s line %s: waiters on %s admitted before the lock is released" % (q, c.line, w))
+                # ... and admitted one after the other until the buffer is full or nobody waits: after each admission
+                # (a put into the buffer that follows the resize) the wait list is looked at again
+                puts = [k for k in f.calls("nni_lmq_put") if k.node["args"] and last_field(f.expand(k.node["args"][0])) == q and
+                        (k.b, k.i) in f.reach((c.b, c.i + 1))]
+                for k in puts:
+                    n += 1
+                    aft = f.reach((k.b, k.i + 1), blocked=lambda b, i, e: (b, i) in serve,
+                                  edge_ok=lambda b, kk: not (b in full and full[b] == kk))
+                    lk = [(b, i) for (b, i) in aft if (i < len(f.blocks[b].elems) and is_unlock(f.blocks[b].elems[i])) or (b, i) == (f.exit, 0)]
+                    if lk:
+                        ctx.fail(r, f, "only one waiter of %s admitted after the resize of %s" % (w, q), k.line,
+                                 "%s admits a blocked sender into %s (line %s) and then releases the lock (line %s) without "
+                                 "looking at %s again: when the buffer grew by more than one slot the other waiters stay parked "
+                                 "beside free room, and a later send overtakes them" % (f.name, q, k.line, f.line_of(*lk[0]), w))
+                    else:
+                        r.ob(f, "admission at line %s is repeated until %s is full or %s is empty" % (k.line, q, w))
     if n < 3:
         raise AnalysisBroken("only %d resizes of buffers with a wait list found" % n)
 
